@@ -134,6 +134,17 @@ def pv_long_operand(texts) -> bool:
     return False
 
 
+def _add_bound(bounds, lit):
+    import re
+    mm = re.match(r"\s*(\d+(?:\.\d+)*)", lit)
+    if mm:
+        r = tuple(int(x) for x in mm.group(1).split("."))
+        bounds.add((r + (0, 0, 0))[:3])
+        if len(r) <= 2:
+            r2 = (r + (0,))[:2]
+            bounds.add((r2[0], r2[1] + 1, 0))
+
+
 def env_class(texts, env) -> str:
     """class prefix for findings that are instances of the recorded `in`-list defect: an atom
     `python_version [not] in "<list>"` whose environment value is a SUBSTRING of the list text but not one of
@@ -154,13 +165,10 @@ def env_class(texts, env) -> str:
             for t in texts:
                 for nm in names:
                     for lit in re.findall(nm + r'\s*(?:~=|==|!=|<=|>=|<|>)\s*"([^"]*)"', t or "") + re.findall(r'"([^"]*)"\s*(?:~=|==|!=|<=|>=|<|>)\s*' + nm, t or ""):
-                        mm = re.match(r"\s*(\d+(?:\.\d+)*)", lit)
-                        if mm:
-                            r = tuple(int(x) for x in mm.group(1).split("."))
-                            bounds.add((r + (0, 0, 0))[:3])
-                            if len(r) <= 2:
-                                r2 = (r + (0,))[:2]
-                                bounds.add((r2[0], r2[1] + 1, 0))
+                        _add_bound(bounds, lit)
+                    for lst in re.findall(nm + r'\s*(?:not\s+in|in)\s*"([^"]*)"', t or ""):
+                        for lit in lst.split(","):
+                            _add_bound(bounds, lit)
             if base in bounds:
                 return "nonfinal-env|"
     for t in texts:
